@@ -134,6 +134,14 @@ def handle (op : String) (j : Json) : Option (Except String Json) :=
     pure (match val.validate vote with
       | .ok _ => Json.str "ok"
       | .error e => rejJson e)
+  | "validate_seq" => some do
+    -- one validator object validating a sequence of ballots: the model is stateless, one verdict per ballot
+    let val ← parseValidator (← j.getObjVal? "val")
+    let a ← fromJson? (α := Array Json) (← j.getObjVal? "votes")
+    let votes ← a.toList.mapM parseObj
+    pure (Json.arr (votes.map (fun v => match val.validate v with
+      | .ok _ => Json.str "ok"
+      | .error e => rejJson e)).toArray)
   | "shape" => some do
     -- the well-formedness predicates used as theorem hypotheses, validated against the real objects
     let vote ← parseObj (← j.getObjVal? "vote")
